@@ -15,7 +15,7 @@ TECHNIQUE = "exhaustive small DAGs x reference kinds x textual orders + Hypothes
 LEVEL_TEXT = (
     "Programs over a logging test library are built from every DAG on up to 3 commands (thorough: 4) with every edge "
     "realised as a direct, list or nested-list reference and every textual order, and from generated DAGs of up to 12 "
-    "commands (diamonds, shared sub-results, list-only references), loaded from source or built through add_command. "
+    "commands (diamonds, shared sub-results, list-only references), loaded from source or built through add_command (references by name or as Command objects). "
     "A generated history of run() and result accesses is replayed; after every step an execution log must show each "
     "command executed at most once, exactly the dependencies of an accessed result executed, everything executed after "
     "run(), nothing executed by later steps, and every result equal to the term computed from the abstract graph "
@@ -100,6 +100,13 @@ def build(case):
     if case.get("build", "source") == "source":
         return Program.from_source(source_text(nodes, order), libraries=LIBS)
     prog = Program(libraries=LIBS)
+    by_object = case.get("build") == "api_objects"
+    if by_object:
+        order = list(range(len(nodes)))  # referenced commands must exist before they can be passed as objects
+
+    def ref(c):
+        return prog.commands[name(c)] if by_object else name(c)
+
     node_cls = prog.find_command_class("Node")
     mute_cls = prog.find_command_class("Mute")
     src_cls = prog.find_command_class("Src")
@@ -111,11 +118,11 @@ def build(case):
         args = {}
         for k in ("A", "B", "C"):
             if n.get(k) is not None:
-                args[k] = name(n[k])
+                args[k] = ref(n[k])
         if n.get("L") is not None:
-            args["L"] = [name(c) for c in n["L"]]
+            args["L"] = [ref(c) for c in n["L"]]
         if n.get("N") is not None:
-            args["N"] = [[name(c) for c in inner] for inner in n["N"]]
+            args["N"] = [[ref(c) for c in inner] for inner in n["N"]]
         prog.add_command(mute_cls if n.get("mute") else node_cls, name(i), args)
     return prog
 
@@ -269,6 +276,8 @@ def small_dags(ctx):
                             if vi and (si + sum(order[:1]) + vi) % 2:
                                 continue  # half of the (order, script) pairs for the None-returning variants
                             yield {"nodes": vnodes, "order": list(order), "build": "source" if si == 0 else "api", "steps": steps}
+                    if vi == 0:
+                        yield {"nodes": vnodes, "order": list(range(n)), "build": "api_objects", "steps": scripts[1]}
 
 
 @st.composite
@@ -298,7 +307,7 @@ def dag_cases(draw):
                           min_size=1, max_size=12))
     if "run" not in steps and draw(st.booleans()):
         steps.insert(draw(st.integers(0, len(steps))), "run")
-    return {"nodes": nodes, "order": order, "build": draw(st.sampled_from(["source", "api"])), "steps": steps}
+    return {"nodes": nodes, "order": order, "build": draw(st.sampled_from(["source", "api", "api_objects"])), "steps": steps}
 
 
 # ----------------------------------------------------------------------------------- built-in commands
